@@ -57,6 +57,11 @@ NESTED_CLASS_NAMES = ["Options", "Meta", "_Helper", "State"]
 # parameters: the names are disjoint from ARGS, so a documented attribute coincides with an `__init__` parameter only in
 # the stratum that asks for it (gen_obj(cvar_shared=True): one documented name is replaced by a parameter's)
 CVAR_NAMES = ["registry", "version", "backend", "tag", "kind_of_model", "verbose_name", "priority"]
+# ordinary parameters whose names CONTAIN `kwargs` / `args` (at the start or in the middle, never at the end): a file of
+# keyword arguments, a count of arguments.  They are parameters like any other: each belongs to the interface, in place
+# (stratum odd_param_names of gen_obj: one parameter of the object carries such a name)
+ARGS_AFFIXED = ["kwargs_file", "my_kwargs_path", "args_count", "kwargs_path", "model_kwargs_json", "args_file",
+                "kwargs_", "args_to_skip"]
 
 
 def _nested_init(rng, ind, taken, doc_style, annotated, name="__init__", first="self"):
@@ -93,8 +98,10 @@ def _nested_class(rng, ind, taken, doc_style, annotated, deep=False):
 
 
 def gen_obj(rng, kind, name, doc_style, annotated, n_params, defaults, ret, class_doc=True, nested=None, n_cvars=0,
-            cvar_shared=False, own_init=True):
+            cvar_shared=False, own_init=True, odd_param_names=0.0):
     """source lines of one function or one class with __init__, plus its features.
+    odd_param_names (default 0.0: never, stream unchanged): probability that one parameter (when there is any) is named
+    from ARGS_AFFIXED instead
     nested (default None: nothing nested, the stream of existing callers is unchanged): one of NESTED_IN_CLASS /
     NESTED_IN_FUNCTION
     n_cvars (default 0: none, stream unchanged): how many attributes the class docstring documents (`:cvar` lines); only
@@ -106,6 +113,8 @@ def gen_obj(rng, kind, name, doc_style, annotated, n_params, defaults, ret, clas
     if kind == "class" and not own_init:
         n_params = 0
     params = rng.sample(ARGS, n_params)
+    if odd_param_names and params and rng.random() < odd_param_names:
+        params[rng.randrange(len(params))] = rng.choice(ARGS_AFFIXED)
     ptypes = [rng.choice(TYPED) for _ in params]
     ndef = rng.randint(0, n_params) if defaults else 0
     sig = []
@@ -196,7 +205,7 @@ def gen_obj(rng, kind, name, doc_style, annotated, n_params, defaults, ret, clas
     return lines, feat
 
 
-def gen_input_module(rng, mostly_good=True, n_entries=None, kinds=None):
+def gen_input_module(rng, mostly_good=True, n_entries=None, kinds=None, odd_param_names=0.0):
     """returns dict(src, entries=[{key, feat}], import_lines, future, mapping_form)"""
     n = n_entries if n_entries is not None else rng.choice([1, 1, 2, 2, 3, 4, 0] if rng.random() < 0.2 else [1, 1, 2, 2, 3, 4])
     fnames = rng.sample(FUNC_NAMES, len(FUNC_NAMES))
@@ -233,7 +242,8 @@ def gen_input_module(rng, mostly_good=True, n_entries=None, kinds=None):
         if not own_init and nested is None and rng.random() < 0.6:
             nested = rng.choice(NESTED_IN_CLASS)
         lines, feat = gen_obj(rng, kind, name, doc_style, annotated, n_params, rng.random() < 0.6, ret, class_doc,
-                              nested=nested, n_cvars=n_cvars, cvar_shared=cvar_shared, own_init=own_init)
+                              nested=nested, n_cvars=n_cvars, cvar_shared=cvar_shared, own_init=own_init,
+                              odd_param_names=odd_param_names)
         body += lines + ["", ""]
         key = name if rng.random() < 0.85 else rng.choice([name.lower() + "_k", "K" + name, name + "2"])
         entries.append({"key": key, "feat": feat})
@@ -398,7 +408,8 @@ def supporting_prepend(rng, import_line, shape=None):
 def gen_case(rng, **force):
     """one `gen` case (API route)"""
     mostly_good = force.get("mostly_good", rng.random() < 0.75)
-    mod = gen_input_module(rng, mostly_good=mostly_good, n_entries=force.get("n_entries"), kinds=force.get("kinds"))
+    mod = gen_input_module(rng, mostly_good=mostly_good, n_entries=force.get("n_entries"), kinds=force.get("kinds"),
+                           odd_param_names=force.get("odd_param_names", 0.0))
     tags = ["good-shapes" if mostly_good else "any-shapes", "entries-%d" % len(mod["entries"])]
     r = rng.random()
     type_ = force.get("type_") or ("class" if r < 0.4 else "argparse" if r < 0.75 else "function" if r < 0.99 else "klass")
@@ -493,6 +504,8 @@ def gen_case(rng, **force):
                   imports=imports, mapping_ref=mapping_ref, existing=existing, opts=opts, cwd=cwd)
     if "decoy" in imports:
         tags.append("decoy-" + imports["decoy"])
+    if any(q in ARGS_AFFIXED for e in mod["entries"] for q in e["feat"]["params"]):
+        tags.append("param-named-like-kwargs")
     c["tags"] = tags
     if "key_override" in (mod["entries"][0] if mod["entries"] else {}):
         e = mod["entries"][0]
